@@ -26,6 +26,7 @@ import (
 	"time"
 
 	"go.uber.org/multierr"
+	"go.uber.org/zap/internal/verifhook"
 )
 
 const (
@@ -175,6 +176,7 @@ func (s *BufferedWriteSyncer) flushLoop() {
 	for {
 		select {
 		case <-s.ticker.C:
+			verifhook.Point("bws.loop.tick_received")
 			// we just simply ignore error here
 			// because the underlying bufio writer stores any errors
 			// and we return any error from Sync() as part of the close
@@ -211,6 +213,7 @@ func (s *BufferedWriteSyncer) Stop() (err error) {
 	if !stopped {
 		return
 	}
+	verifhook.Point("bws.stop.signalled")
 
 	// Wait for flushLoop to end outside of the lock, as it may need the lock to complete.
 	// See https://github.com/uber-go/zap/issues/1428 for details.
